@@ -164,3 +164,45 @@ func lfLocalCallees(p *Prog, pkg *types.Package, info *types.Info, root *types.F
 	}
 	return order
 }
+
+// Aliases calls visit for every expression that e may denote as a whole value through local aliasing only:
+// identifiers are followed to the expressions assigned to them, &x / (x) are stripped, append(s, a, b...) denotes
+// the elements of s, a, b..., a range variable denotes the elements of the ranged expression. Sub-expressions
+// (operands, call arguments other than append's, literal fields) are NOT followed.
+func (d *lfDeps) Aliases(e ast.Expr, visit func(x ast.Expr)) {
+	seen := map[types.Object]bool{}
+	var walk func(e ast.Expr)
+	walk = func(e ast.Expr) {
+		e = ast.Unparen(e)
+		visit(e)
+		switch x := e.(type) {
+		case *ast.UnaryExpr:
+			if x.Op == token.AND {
+				walk(x.X)
+			}
+		case *ast.StarExpr:
+			walk(x.X)
+		case *ast.Ident:
+			if o := d.info.Uses[x]; o != nil && !seen[o] {
+				seen[o] = true
+				for _, r := range d.deps[o] {
+					walk(r)
+				}
+			} else if o := d.info.Defs[x]; o != nil && !seen[o] {
+				seen[o] = true
+				for _, r := range d.deps[o] {
+					walk(r)
+				}
+			}
+		case *ast.CallExpr:
+			if id, ok := ast.Unparen(x.Fun).(*ast.Ident); ok {
+				if b, ok := d.info.Uses[id].(*types.Builtin); ok && b.Name() == "append" {
+					for _, a := range x.Args {
+						walk(a)
+					}
+				}
+			}
+		}
+	}
+	walk(e)
+}
